@@ -15,6 +15,7 @@ import hypothesis
 from hypothesis import given, settings, HealthCheck, Phase
 import hypothesis.internal.conjecture.engine as _eng
 _eng.BUFFER_SIZE = 64 * 1024
+from vf.runner import exec_case
 
 
 def main():
@@ -29,7 +30,7 @@ def main():
 
     def one(case):
         try:
-            out = prop.run_case(case)
+            out = exec_case(prop, case)
         except Exception:
             print("HARNESS EXC on case", json.dumps(case)[:3000])
             traceback.print_exc()
